@@ -101,18 +101,9 @@ def in_range_dt(d):
         return False
 
 
-PROCESS_ZONES = ["UTC0", "JST-9", "EST5EDT,M3.2.0,M11.1.0", "NZST-12NZDT,M9.5.0,M4.1.0/3"]
-
-
 def install(ctx):
-    # configuration: the process' local time zone. Naive datetimes mean UTC whatever the local zone is, so each shard runs under
-    # another zone (a replay re-installs the zone of the shard that recorded the case).
-    import os
-    import time
-    tz = PROCESS_ZONES[ctx.shard % len(PROCESS_ZONES)]
-    os.environ["TZ"] = tz
-    time.tzset()
-    ctx.note_set("process_time_zones", tz)
+    from ..core import set_process_time_zone
+    set_process_time_zone(ctx)
     tu = _tu()
     import csep  # noqa
     import csep.core.catalogs  # noqa
